@@ -128,9 +128,11 @@ def tlc_phase(chk, name, nb, nc, invariants, seeds, trees_only, extra_runs=()):
         states += res.distinct
         trans += res.generated
         cov = res.coverage()
-        for act in ["ChooseConfig", "Assemble", "TriangLevel", "ElimChildrenLower", "ElimParentsUpper", "TriangRoot",
-                    "BacksubRoot", "ElimParentsLower", "ElimChildrenUpper", "BacksubLevel"]:
-            if cov and cov.get(act, (0, 0))[1] == 0:
+        if not cov:
+            raise C.MachineryError("no coverage statistics in the output of %s" % job[0])
+        for act in ["ChooseConfig", "SAssemble", "STriangLevel", "SElimChildrenLower", "SElimParentsUpper", "STriangRoot",
+                    "SBacksubRoot", "SElimParentsLower", "SElimChildrenUpper", "SBacksubLevel"]:
+            if cov.get(act, (0, 0))[1] == 0:
                 raise C.MachineryError("vacuity: action %s never taken in %s" % (act, job[0]))
         crosscheck_evaluator(cfgs, job[2])
         for c in cfgs:
